@@ -429,6 +429,46 @@ fn v3_response(d: &[u8]) -> Option<String> {
     }
 }
 
+/// msgData of an encrypted message is exactly the declared contents of its OCTET STRING: octets that follow it inside the
+/// message envelope (declared length shortened, all bytes kept) never become part of the ciphertext.
+fn check_msgdata_extent(rep: &mut Report) -> u64 {
+    use gufo_snmp::snmp::msg::v3::MsgData;
+    let mut n = 0u64;
+    let usm = rb::usm(b"\x80\x00\x1f\x88\x04eng", 7, 300, b"u", &[0u8; 12], &[1, 2, 3, 4, 5, 6, 7, 8]);
+    for clen in [8usize, 16, 24, 48, 100] {
+        let ct: Vec<u8> = (0..clen).map(|i| (i * 5 + 1) as u8).collect();
+        let d = rb::v3_msg(1, 65507, 0x03, &usm, &rb::enc_octets(&ct));
+        let nodes = rb::all_nodes(&d);
+        let md = match nodes.iter().filter(|x| x.depth == 1 && x.tag == 0x04).last() {
+            Some(x) if x.hlen == 2 && x.end() == d.len() => x.clone(),
+            _ => continue,
+        };
+        for cut in 1..=clen.min(9) {
+            let mut w = d.clone();
+            w[md.start + 1] = (md.len - cut) as u8;
+            n += 1;
+            let r = guarded(|| match SnmpV3Message::try_from(w.as_slice()) {
+                Ok(m) => match m.data {
+                    MsgData::Encrypted(x) => Some(x.to_vec()),
+                    _ => Some(vec![]),
+                },
+                Err(_) => None,
+            });
+            match r {
+                Ok(None) => {}
+                Ok(Some(x)) if x == ct[..clen - cut] => {}
+                Ok(Some(x)) => rep.violation(
+                    "msgdata-read-past-declared-length",
+                    format!("msgData declared {} octets with {} more following it inside the message: {} octets were taken as ciphertext", clen - cut, cut, x.len()),
+                    format!("{{\"kind\": \"msg\", \"entry\": 28, \"hex\": {}}}", jstr(&hex(&w))),
+                ),
+                Err(p) => rep.violation(&format!("msgdata/panic/{}", crate::panic_class(&p)), format!("panic: {}", p), format!("{{\"kind\": \"msg\", \"entry\": 28, \"hex\": {}}}", jstr(&hex(&w)))),
+            }
+        }
+    }
+    n
+}
+
 /// contextName is an element like any other: whatever its contents (text, zeros, a complete PDU), the PDU that
 /// follows it is decoded from the octets *after* it - the result is that of the same message with an empty name.
 fn check_context_name(rep: &mut Report) -> u64 {
@@ -566,6 +606,7 @@ pub fn run(thorough: bool) -> Report {
         *label.lock().unwrap() = "over-long inner lengths".into();
         let mut n = check_overlong(thorough, rep);
         n += check_context_name(rep);
+        n += check_msgdata_extent(rep);
         beat.fetch_add(1, Ordering::Relaxed);
         let nd = check_decrypt_extent(rep);
         rep.count("decrypt_extent_cases", nd);
